@@ -6,6 +6,8 @@ import (
 	"context"
 	"errors"
 	"fmt"
+	ilog "github.com/aptpod/iscp-go/log"
+	"os"
 	"sync"
 	"time"
 
@@ -34,7 +36,8 @@ type Program [][]Op
 // Config of a scenario run.
 type Config struct {
 	Codec          string `json:"codec,omitempty"`
-	PingMs         int    `json:"ping_ms"`          // keepalive interval == timeout
+	PingMs         int    `json:"ping_ms"` // keepalive interval (and timeout unless PingTimeoutMs is set)
+	PingTimeoutMs  int    `json:"ping_timeout_ms,omitempty"`
 	CtxMs          int    `json:"ctx_ms"`           // default call deadline
 	CloseTimeoutMs int    `json:"close_timeout_ms"` // upstream close timeout
 	AckTimeoutMs   int    `json:"ack_timeout_ms"`
@@ -116,6 +119,13 @@ type Env struct {
 	HangLimit time.Duration
 }
 
+func (c Config) pingTimeout() int {
+	if c.PingTimeoutMs > 0 {
+		return c.PingTimeoutMs
+	}
+	return c.PingMs
+}
+
 func (c Config) withDefaults() Config {
 	if c.PingMs == 0 {
 		c.PingMs = 30
@@ -170,9 +180,12 @@ func Start(w *sim.World, cfg Config) (*Env, error) {
 		enc = iscp.EncodingNameJSON
 	}
 	opts := []iscp.ConnOption{iscp.WithConnEncoding(enc), iscp.WithConnPingInterval(time.Duration(cfg.PingMs) * time.Millisecond),
-		iscp.WithConnPingTimeout(time.Duration(cfg.PingMs) * time.Millisecond),
+		iscp.WithConnPingTimeout(time.Duration(cfg.pingTimeout()) * time.Millisecond),
 		iscp.WithConnDisconnectedEventHandler(iscp.DisconnectedEventHandlerFunc(func(*iscp.DisconnectedEvent) { ev.mu.Lock(); ev.Disconnected++; ev.mu.Unlock() })),
 		iscp.WithConnReconnectedEventHandler(iscp.ReconnectedEventHandlerFunc(func(*iscp.ReconnectedEvent) { ev.mu.Lock(); ev.Reconnected++; ev.mu.Unlock() }))}
+	if os.Getenv("VERIF_LIBLOG") != "" {
+		opts = append(opts, iscp.WithConnLogger(ilog.NewStd()))
+	}
 	if cfg.Storage == "payload" {
 		opts = append(opts, iscp.VerifWithConnSentStorage(iscp.VerifNewInmemSentStorage()))
 	}
@@ -474,7 +487,28 @@ func LedgerSummary(l []*sim.Entry, max int) []string {
 		if e.In {
 			d = "<-"
 		}
-		s = append(s, fmt.Sprintf("%dus inc%d %s %s pos=%d", e.T, e.Inc, d, e.Kind, e.Pos))
+		x := fmt.Sprintf("%dus inc%d %s %s pos=%d", e.T, e.Inc, d, e.Kind, e.Pos)
+		switch m := e.Msg.(type) {
+		case *message.UpstreamResumeRequest:
+			x += fmt.Sprintf(" stream=%x", m.StreamID[12:])
+		case *message.DownstreamResumeRequest:
+			x += fmt.Sprintf(" stream=%x alias=%d", m.StreamID[12:], m.DesiredStreamIDAlias)
+		case *message.UpstreamOpenResponse:
+			x += fmt.Sprintf(" stream=%x alias=%d", m.AssignedStreamID[12:], m.AssignedStreamIDAlias)
+		case *message.DownstreamOpenResponse:
+			x += fmt.Sprintf(" stream=%x", m.AssignedStreamID[12:])
+		case *message.UpstreamResumeResponse:
+			x += fmt.Sprintf(" code=%d alias=%d", m.ResultCode, m.AssignedStreamIDAlias)
+		case *message.DownstreamResumeResponse:
+			x += fmt.Sprintf(" code=%d", m.ResultCode)
+		case *message.UpstreamCloseRequest:
+			x += fmt.Sprintf(" stream=%x final=%d total=%d", m.StreamID[12:], m.FinalSequenceNumber, m.TotalDataPoints)
+		case *message.DownstreamCloseRequest:
+			x += fmt.Sprintf(" stream=%x", m.StreamID[12:])
+		case *message.UpstreamChunk:
+			x += fmt.Sprintf(" alias=%d seq=%d", m.StreamIDAlias, m.StreamChunk.SequenceNumber)
+		}
+		s = append(s, x)
 	}
 	if len(s) > max {
 		s = append(s[:max/2], s[len(s)-max/2:]...)
